@@ -49,6 +49,10 @@ pub struct Case {
     /// the form's own type (with the boundary) is what must be announced
     #[serde(default)]
     pub prior_content_type: u8,
+    /// when present: the first transmission of the prepared request is reset by the peer after this fraction of the body's
+    /// bytes; the request is then sent again (twice) and judged as usual
+    #[serde(default)]
+    pub reset_first: Option<u16>,
 }
 
 pub const SHORT_WRITES: &[usize] = &[1, 7, 1460, 4096, 8191, 8192, 8193, 16000];
@@ -216,6 +220,16 @@ fn send_form(case: &Case, prev_boundary: &str) -> Result<(Sent, Vec<Part>), Outc
         Err(e) => return Err(Outcome::fail("C15:prepare-failed", format!("{e:?}"))),
     };
     let mut prepared = prepared;
+    if let Some(f) = case.reset_first {
+        // a first transmission that the peer resets part-way: it fails, and nothing of it may shape the next one
+        let total: usize = expected.iter().map(|p| p.data.len() + 200).sum::<usize>() + 300;
+        crate::transport::fail_writes_after(1 + (((f as usize) * total) >> 16));
+        let (_g0, _n0) = serve_scripts(vec![ok_response()]);
+        let _ = prepared.send();
+        crate::transport::fail_writes_after(0);
+    }
+    // (the factory of the transmission that is judged is installed last)
+    let (_guard, net) = serve_scripts(vec![ok_response()]);
     if let Err(e) = prepared.send() {
         return Err(Outcome::fail("C15:send-failed", format!("{e:?}")));
     }
@@ -287,9 +301,9 @@ non-trivial = >= 2 parts with a file, or data containing a delimiter look-alike,
 
     fn strategy(_tier: Tier) -> BoxedStrategy<Case> {
         prop_oneof![
-            1 => Just(Case { texts: vec![], files: vec![], short_write: 0, prior_content_type: 0 }),
-            30 => (proptest::collection::vec((name_strategy(), text_value()), 0..8), proptest::collection::vec(file_strategy(), 0..6), short_write_strategy(), prop_oneof![4 => Just(0u8), 1 => Just(1u8), 1 => Just(2u8)])
-                .prop_map(|(texts, files, short_write, prior_content_type)| Case { texts, files, short_write, prior_content_type }),
+            1 => Just(Case { texts: vec![], files: vec![], short_write: 0, prior_content_type: 0, reset_first: None }),
+            30 => (proptest::collection::vec((name_strategy(), text_value()), 0..8), proptest::collection::vec(file_strategy(), 0..6), short_write_strategy(), prop_oneof![4 => Just(0u8), 1 => Just(1u8), 1 => Just(2u8)], prop_oneof![5 => Just(None), 1 => any::<u16>().prop_map(Some)])
+                .prop_map(|(texts, files, short_write, prior_content_type, reset_first)| Case { texts, files, short_write, prior_content_type, reset_first }),
         ]
         .boxed()
     }
@@ -297,6 +311,7 @@ non-trivial = >= 2 parts with a file, or data containing a delimiter look-alike,
     fn check(case: &Case, ctx: &mut Ctx) -> Outcome {
         ctx.label_if(case.short_write != 0, "short-writing-transport");
         ctx.label_if(case.prior_content_type != 0, "content-type-present-before-the-form");
+        ctx.label_if(case.reset_first.is_some(), "first-transmission-reset-by-the-peer");
         let mut prev = "AaBbCcDdEeFfGgHh".to_string();
         let mut total = 0;
         let mut boundaries = vec![];
